@@ -244,4 +244,27 @@ def rootAtomId (v : View) (x : Numbering) (bindingC : Nat) : Res Nat :=
   | .raises w => .raises w
   | .unmodelled => .unmodelled
 
+/-! ### `Monomer.mark` -/
+
+/-- the atom `mark(position, o_atom, n_atom)` turns into a linkage marker, and the marker's atomic number: the free end found for
+    the position (`find_oxygen`, then `__check_root_id`) becomes the O-marker of the pair if it is an oxygen, the N-marker if it is a
+    nitrogen; anything else raises -/
+def markAt (v : View) (x : Numbering) (pos oZ nZ : Nat) : Res (Nat × Nat) :=
+  match findOxygen v x pos with
+  | .ok o =>
+    let r := checkRootId v o
+    if (v.at r).z == 8 then .ok (r, oZ) else if (v.at r).z == 7 then .ok (r, nZ) else .raises "ValueError"
+  | .raises w => .raises w
+  | .unmodelled => .unmodelled
+
+/-- `GetAtomWithIdx(idx).SetAtomicNum(z)` and `x[idx, 0] = z`: one atom's element, nothing else -/
+def View.setZ (v : View) (i z : Nat) : View :=
+  ⟨v.atoms.mapIdx (fun k a => if k == i then { a with z := z } else a), v.adj⟩
+
+def mark (v : View) (x : Numbering) (pos oZ nZ : Nat) : Res View :=
+  match markAt v x pos oZ nZ with
+  | .ok (r, z) => .ok (v.setZ r z)
+  | .raises w => .raises w
+  | .unmodelled => .unmodelled
+
 end Gly.EnumC
